@@ -29,14 +29,34 @@ type c03Case struct {
 	MC         bool     `json:"match_case,omitempty"`
 	Strings    []string `json:"strings,omitempty"`
 	BoundedLen int      `json:"bounded_len,omitempty"` // additionally all strings up to this length over a pattern-derived alphabet
+	// Variant: how the options are written (0: $domain first; 1..3: an exception with document-level
+	// modifiers before or after $match-case) — the language of the mask does not depend on it
+	Variant int `json:"option_variant,omitempty"`
 }
 
 func c03RuleText(c c03Case) string {
-	txt := c.Pattern + "$domain=example.org"
+	mc := ""
 	if c.MC {
-		txt += ",match-case"
+		mc = "match-case"
 	}
-	return txt
+	join := func(xs ...string) string {
+		var out []string
+		for _, x := range xs {
+			if x != "" {
+				out = append(out, x)
+			}
+		}
+		return strings.Join(out, ",")
+	}
+	switch c.Variant {
+	case 1:
+		return "@@" + c.Pattern + "$" + join(mc, "document", "domain=example.org")
+	case 2:
+		return "@@" + c.Pattern + "$" + join("elemhide", mc, "domain=example.org", "urlblock")
+	case 3:
+		return c.Pattern + "$" + join(mc, "domain=example.org|example.com", "ctag=~nosuchtag")
+	}
+	return c.Pattern + "$" + join("domain=example.org", mc)
 }
 
 // c03BoundedStrings enumerates all strings up to maxLen over the bytes of the
@@ -136,7 +156,12 @@ func checkC03(c c03Case, rec *Rec) *Violation {
 				c.Pattern, c.MC, u, re, got, want)
 		}
 		// 2. the public API
-		if m := rule.Match(rules.NewRequest(u, "http://example.org/", rules.TypeOther)); m != want {
+		// (rules with document-level modifiers apply to document requests only)
+		typ := rules.TypeOther
+		if c.Variant == 1 || c.Variant == 2 {
+			typ = rules.TypeDocument
+		}
+		if m := rule.Match(rules.NewRequest(u, "http://example.org/", typ)); m != want {
 			return viol(id, "C03:match-api-differs", "pattern %q match-case=%v string %q: Match=%v, mask reference=%v (shortcut %q)",
 				c.Pattern, c.MC, u, m, want, rule.Shortcut)
 		}
@@ -218,6 +243,9 @@ func genC03(t *rapid.T) c03Case {
 		sb.WriteString("/*")
 	}
 	c := c03Case{Pattern: sb.String(), MC: chance(t, "mc", 3)}
+	if chance(t, "option-variant", 4) {
+		c.Variant = rapid.IntRange(1, 3).Draw(t, "variant")
+	}
 	n := rapid.IntRange(10, 30).Draw(t, "nstr")
 	for i := 0; i < n; i++ {
 		c.Strings = append(c.Strings, c03Derive(t, c.Pattern, c.MC))
